@@ -1,0 +1,36 @@
+//! verification-only override points (compiled only under `cfg(all(kani, feature = "verif-step"))`).
+//!
+//! the search-loop step harnesses decide one iteration of `run_a_star` with three of its callees
+//! replaced by their contracts (adjacency lookup, edge traversal, cost estimate). the replacements
+//! are plain functions that the harness crate defines under these names (`#[no_mangle]`), rather
+//! than the model checker's own stubbing, so that a counterexample can be replayed natively with
+//! the same replacements in place.
+
+use crate::algorithm::search::direction::Direction;
+use crate::algorithm::search::edge_traversal::EdgeTraversal;
+use crate::algorithm::search::search_error::SearchError;
+use crate::algorithm::search::search_instance::SearchInstance;
+use crate::model::network::{EdgeId, VertexId};
+use crate::model::traversal::state::state_variable::StateVar;
+use crate::model::unit::Cost;
+
+extern "Rust" {
+    pub fn verif_incident_edges<'a>(
+        direction: &'a Direction,
+        vertex_id: &VertexId,
+        si: &'a SearchInstance,
+    ) -> Box<dyn Iterator<Item = &'a EdgeId> + 'a>;
+    pub fn verif_edge_traversal(
+        direction: &Direction,
+        edge_id: EdgeId,
+        last_edge_id: Option<EdgeId>,
+        start_state: &[StateVar],
+        si: &SearchInstance,
+    ) -> Result<EdgeTraversal, SearchError>;
+    pub fn verif_cost_estimate(
+        si: &SearchInstance,
+        src: VertexId,
+        dst: VertexId,
+        state: &[StateVar],
+    ) -> Result<Cost, SearchError>;
+}
